@@ -1,0 +1,53 @@
+//go:build verif
+// +build verif
+
+package moss
+
+// When the tests are built with -tags verif and VERIF_TRACE_DIR is set,
+// every verif trace event of every collection the tests create is written
+// to an ndjson file, so that the recorded executions of the repository's
+// own tests can be validated against the TLA+ specification.
+
+import (
+	"encoding/json"
+	"fmt"
+	"os"
+	"sync"
+)
+
+func init() {
+	dir := os.Getenv("VERIF_TRACE_DIR")
+	if dir == "" {
+		return
+	}
+	f, err := os.Create(fmt.Sprintf("%s/trace-%d.ndjson", dir, os.Getpid()))
+	if err != nil {
+		return
+	}
+	var mu sync.Mutex
+	enc := json.NewEncoder(f)
+	ids := map[Collection]int{}
+	var seq uint64
+	VerifTracer = func(info VerifInfo) {
+		if info.Coll == nil {
+			return
+		}
+		mu.Lock()
+		defer mu.Unlock()
+		id, ok := ids[info.Coll]
+		if !ok {
+			id = len(ids) + 1
+			ids[info.Coll] = id
+		}
+		seq++
+		maxPre := 0
+		if c, ok := info.Coll.(*collection); ok {
+			maxPre = c.options.MaxPreMergerBatches
+		}
+		enc.Encode(map[string]interface{}{
+			"seq": seq, "point": info.Point, "c": id, "new": !ok,
+			"top": info.Top, "mid": info.Mid, "base": info.Base, "clean": info.Clean,
+			"closed": info.Closed, "maxpre": maxPre,
+		})
+	}
+}
